@@ -51,6 +51,10 @@ impl Rng {
         Rng { s }
     }
 
+    pub fn from_state(s: [u64; 4]) -> Self {
+        Rng { s }
+    }
+
     /// Derive a generator from (seed, label, shard, index).
     pub fn derive(seed: u64, label: &str, shard: u64, index: u64) -> Self {
         let mut x = seed ^ fnv64(label.as_bytes());
